@@ -452,3 +452,10 @@ MANIFEST = {
     "technique": "bounded SAT encoding (CYK-style, z3 bit-vectors) of the compiled grammar vs a reference grammar; witness replay on the real parser",
     "design_ref": "DESIGN.md §3.1, §7 C06",
 }
+
+
+def extra_validation():
+    """enumeration (labelled): layout-sensitive neighbours parsed in sequence by one parser"""
+    seqs = [['size("a  b")', 'size("a b")'], ["x // c\n + 1", "x // c + 1"], ["'a\tb' + 'a b'", "'a b' + 'a b'"], ["1 +\n2", "1 + 2", "1  +  2"],
+            ["a ? b : c", "a ? b :c", "a?b:c"], ['"x  " + y', '"x " + y', '"x" + y'], ["f(a, b) // t\n.g()", "f(a, b) // t .g()"], ["[1, 2][0]", "[1,2] [0]"]]
+    return [{"check": "c06.layout_sequence", "args": {"texts": t}} for t in seqs]
